@@ -34,21 +34,20 @@ Presented(y) ==
 Cycle(gen, h, rdy) ==
     LET r0 == [e |-> "cyc", gen |-> gen, rdy |-> rdy, hdr |-> h, pl |-> Payload(h.len), free |-> FALSE,
                maxlat |-> MaxLat, nodone |-> FALSE]
-        y  == Eff(x, r0)
-        p  == Presented(y)
-        outs == IF y.st = "idle" THEN {NoWord}
-                ELSE (IF y.k = 1 /\ y.lat < y.maxlat THEN {NoWord} ELSE {})
-                     \cup {IF y.k <= 5 THEN HeaderWords(y.dw, y.crc16, y.lc)[y.k] ELSE y.tail[y.k - 5]}
-    IN \E ow \in outs, take \in Bool :
-         LET r == [e |-> "cyc", gen |-> gen, rdy |-> rdy, hdr |-> h, pl |-> Payload(h.len), free |-> FALSE,
-                   maxlat |-> MaxLat, nodone |-> FALSE, ow |-> ow,
-                   done |-> (y.st = "busy" /\ ow.v /\ y.k = y.n /\ rdy),
-                   dsv |-> p.v, dsd |-> p.d, dsr |-> (take /\ p.v # 0)]
-             j == Judge(x, r)
-         IN /\ (take => p.v # 0)
-            /\ j.f = "ok"
-            /\ x' = j.n
-            /\ in' = r
+    IN \E y \in {Eff(x, r0)} :
+       LET p  == Presented(y)
+           outs == IF y.st = "idle" THEN {NoWord}
+                   ELSE (IF y.k = 1 /\ y.lat < y.maxlat THEN {NoWord} ELSE {})
+                        \cup {IF y.k <= 5 THEN HeaderWords(y.dw, y.crc16, y.lc)[y.k] ELSE y.tail[y.k - 5]}
+       IN \E ow \in outs, take \in Bool :
+            /\ (take => p.v # 0)
+            /\ \E j \in {JudgeE(x, y, [r0 EXCEPT !.rdy = rdy] @@ [ow |-> ow,
+                                  done |-> (y.st = "busy" /\ ow.v /\ y.k = NWords(y) /\ rdy),
+                                  dsv |-> p.v, dsd |-> p.d, dsr |-> (take /\ p.v # 0)])} :
+                 /\ j.f = "ok"
+                 /\ x' = j.n
+            /\ in' = r0 @@ [ow |-> ow, done |-> (y.st = "busy" /\ ow.v /\ y.k = NWords(y) /\ rdy),
+                            dsv |-> p.v, dsd |-> p.d, dsr |-> (take /\ p.v # 0)]
             /\ emitted' = IF x.st = "idle" /\ gen THEN (IF ow.v /\ rdy THEN <<ow>> ELSE <<>>)
                           ELSE IF ow.v /\ rdy THEN Append(emitted, ow) ELSE emitted
             /\ pres' = 0
@@ -92,6 +91,6 @@ Crc32Tab == [n \in 0..MaxLen |-> Usb3Crc32Bytes(Payload(n))]
 McCrc16(dw) == Crc16Tab[dw]
 McCrc32(pl) == IF pl = Payload(Len(pl)) THEN Crc32Tab[Len(pl)] ELSE Usb3Crc32Bytes(pl)
 \* `done` exactly once per packet, with the last word
-DoneOnlyAtEnd == in.done => (x.st = "idle" /\ Len(emitted) = x.n)
+DoneOnlyAtEnd == in.done => (x.st = "idle" /\ Len(emitted) = NWords(x))
 TypeOK == x.st \in {"idle", "busy"} /\ x.consumed <= Len(x.pl) /\ Len(emitted) <= 16
 =============================================================================
